@@ -1,0 +1,31 @@
+//go:build verif
+
+package ports
+
+import "sort"
+
+// VerifSnapshot is a read-only projection of the manager used by verification tooling.
+type VerifSnapshot struct {
+	Free     []int           `json:"free"`
+	Used     map[int]string  `json:"used"`
+	Reserved map[string]int  `json:"reserved"`
+	Closed   map[string]bool `json:"closed"`
+}
+
+func (pm *Manager) VerifSnapshot() VerifSnapshot {
+	pm.mu.Lock()
+	defer pm.mu.Unlock()
+	s := VerifSnapshot{Free: []int{}, Used: map[int]string{}, Reserved: map[string]int{}, Closed: map[string]bool{}}
+	for p := range pm.freePorts {
+		s.Free = append(s.Free, p)
+	}
+	sort.Ints(s.Free)
+	for p, c := range pm.usedPorts {
+		s.Used[p] = c.ProxyName
+	}
+	for n, c := range pm.reservedPorts {
+		s.Reserved[n] = c.Port
+		s.Closed[n] = c.Closed
+	}
+	return s
+}
